@@ -1,10 +1,14 @@
 ---------------------------- MODULE ParserTrace ----------------------------
 (* Implementation -> model for DecodingLayerParser with scripted layers (C05 part 1).     *)
 (* One event per (script, container set): what gopacket.NewPacket produced for the bytes  *)
-(* and what DecodeLayers reported through each of 4 containers x 3 flavours x             *)
+(* and what DecodeLayers reported through each of 4 containers x 5 flavours x             *)
 (* IgnoreUnsupported (identical observations are merged, `who` lists their producers:     *)
-(* container + 4*flavour + 12*ignore; flavours: 0 cold parser, 1 parser that decoded a    *)
-(* truncated packet before, 2 caller's `decoded` slice not empty).                        *)
+(* container + 4*flavour + 20*ignore; flavours: 0 container filled with Put and installed *)
+(* with SetDecodingLayerContainer, 1 the same after decoding a truncated packet, 2 the    *)
+(* same with a non-empty `decoded` slice, 3 empty container installed and the layers      *)
+(* added with AddDecodingLayer in the order of a construction plan (ParserBuild.tla),     *)
+(* 4 the plan's first `cut` layers, a decode - recorded in `mid`, judged against that     *)
+(* smaller set - then the remaining layers added).                                        *)
 (*   reason "parser-ne-packet"      : verdict - the parser did not report the leading run *)
 (*                                    of the REAL packet's layers (Parser!LeadingRun)     *)
 (*   reason "wrong-decoder-called"  : verdict - a scripted layer registered for type T was *)
@@ -29,8 +33,8 @@ Note(b, r) == IF \E i \in 1..Len(b) : b[i].reason = r.reason THEN b
               ELSE IF Len(b) < 64 THEN Append(b, r) ELSE b
 
 Range(s) == {s[i] : i \in DOMAIN s}
-IgnOf(w) == w >= 12
-PreOf(w) == (w % 12) \div 4 = 2
+IgnOf(w) == w >= 20
+PreOf(w) == (w % 20) \div 4 = 2
 Junk == <<5, 5>>
 
 Obs(r) == [types |-> r.types, err |-> r.err, ut |-> r.ut, trunc |-> r.trunc]
@@ -51,10 +55,15 @@ Judge(e) ==
       \* <<observation, IgnoreUnsupported, prefilled slice>> for every producer of every observation
       mine  == UNION {{<<r, IgnOf(w), PreOf(w)>> : w \in Range(r.who)} : r \in Range(e.res)}
   IN IF \E r \in Range(e.res) : r.bad # "" THEN "wrong-decoder-called"
-     ELSE IF UNION {Range(r.who) : r \in Range(e.res)} # 0..23 THEN "incomplete-event"
+     ELSE IF UNION {Range(r.who) : r \in Range(e.res)} # 0..39 THEN "incomplete-event"
      ELSE IF ~LayersExplained(scr, e.pkt.types) THEN "parser-ne-packet"
+     ELSE IF UNION {Range(r.who) : r \in Range(e.mid.res)} # 0..7 THEN "incomplete-event"
      ELSE LET steps == EagerSteps(scr, e.pkt.types)
+              \* the decode made when only the first `cut` layers of the plan had been added is judged
+              \* against that smaller set
+              midS  == Range(e.mid.s)
               vs    == {JudgeRun(e, S, steps, x[1], x[2], x[3]) : x \in mine}
+                       \cup UNION {{JudgeRun(e, midS, steps, r, w >= 4, FALSE) : w \in Range(r.who)} : r \in Range(e.mid.res)}
           IN IF "parser-ne-packet" \in vs THEN "parser-ne-packet"
              ELSE IF "decoded-not-truncated" \in vs THEN "decoded-not-truncated"
              ELSE LET eg == EagerResult(scr) IN
